@@ -68,6 +68,10 @@ def struct(t) -> str:
         return "upper"
     if op.endswith(".tril"):
         return "lower"
+    if op.endswith(".eye") or op.endswith(".identity"):
+        return "diag"
+    if op.endswith(".where") and len(a) == 3:
+        return join(struct(a[1]), struct(a[2]))
     if op == "attr" and a[1] == "T":
         s = struct(a[0])
         return {"upper": "lower", "lower": "upper", "orth": "general"}.get(s, s)
@@ -78,6 +82,8 @@ def struct(t) -> str:
         if {x, y} <= {"upper", "diag"} or {x, y} <= {"lower", "diag"}:
             return "upper" if "upper" in (x, y) else ("lower" if "lower" in (x, y) else "diag")
         return "general"
+    if op == "sub" and isinstance(a[1], T.Term) and a[1].op.endswith(".tril") and len(a[1].args) >= 2 and a[1].args[0] is a[0] and a[1].args[1] == -1:
+        return "upper"  # X - strictly_lower(X) = upper part of X
     if op in ("add", "sub"):
         return join(struct(a[0]), struct(a[1]))
     if op == "neg":
@@ -126,16 +132,124 @@ def eval_fn(p: Program, m: ModuleInfo, fn: ast.FunctionDef, args):
 
 
 def check_rule(p, m, fn, rule):
-    """Returns (ok, detail)."""
+    """Returns (ok, detail) for the rule as a whole (kept for the positive control) -- see check_rule_cases for the per-case verdicts."""
+    cases = check_rule_cases(p, m, fn, rule)
+    bad = [c for c in cases if c[1] is False]
+    unk = [c for c in cases if c[1] is None]
+    if bad:
+        return False, bad[0][2]
+    if unk:
+        return None, unk[0][2]
+    return True, "; ".join(c[2] for c in cases)
+
+
+def wide_inputs_reached(S):
+    """(reached?, description): shape census of every typed qr_r application of the conditional algebra (the scenarios of C08)."""
+    from .. import adomain as AD
+    from .. import report
+    from . import c08
+
+    cached = getattr(S, "_qr_census", None)
+    if cached is None:
+        AD.QR_CALLS.clear()
+        lender = report.Check("C08", "quick", 0, "", level="other")
+        try:
+            c08.run(lender, Session(S.p))
+        except AnalysisError as e:
+            S._qr_census = cached = (None, f"census failed: {e}")
+            return cached
+        calls = list(AD.QR_CALLS)
+        notproven = [d for _s, tall, d in calls if not tall]
+        if not calls:
+            cached = (None, "no typed qr_r application found")
+        elif notproven:
+            cached = (True, f"{len(notproven)} of {len(calls)} typed applications are not proven tall/square, e.g. {notproven[0]}")
+        else:
+            cached = (False, f"all {len(calls)} typed qr_r applications of the conditional algebra have at least as many rows as columns")
+        S._qr_census = cached
+    return cached
+
+
+def check_rule_cases(p, m, fn, rule):
+    """[(label, ok, detail, kind)] -- tangent-space membership per input class distinguished by the rule itself."""
     M, Md = T.atom("M"), T.atom("M_dot")
     primal = eval_fn(p, m, fn, [M])
     res = eval_fn(p, m, rule, [(M,), (Md,)])
     if not (isinstance(res, (tuple, list)) and len(res) == 2):
-        return None, f"rule returns {T.show(res, 2)}"
-    sp, sr, st = struct(primal), struct(res[0]), struct(res[1])
-    ok = leq(st, sp)
-    return ok, f"primal output is {sp}, rule's primal {sr}, rule's tangent {st}: {T.show(res[1], 4)}"
+        return [("every input", None, f"rule returns {T.show(res, 2)}", "all")]
+    sp, sr = struct(primal), struct(res[0])
+    out = []
+    for label, kind, tan, _guard in rule_cases(res[1]):
+        st = struct(tan)
+        if kind == "singular":
+            out.append((label, True, f"R has a zero on its diagonal: the factorisation is not differentiable there, the rule returns the finite convention {T.show(tan, 3)} (tangent {st})", kind))
+        else:
+            out.append((label, leq(st, sp), f"primal output is {sp}, rule's primal {sr}, rule's tangent {st}: {T.show(tan, 4)}", kind))
+    return out
 
+
+# ---------------------------------------------------------------------------
+# Case analysis of a rule that distinguishes input classes with jnp.where / a static shape test
+def _strip_ext(op):
+    return op.rsplit(".", 1)[-1] if op.startswith("ext:") else op
+
+
+def is_regularity_test(c):
+    """all(diagonal(R) != 0): the rule asks whether the triangular factor is regular (no zero on its diagonal)."""
+    if not (isinstance(c, T.Term) and _strip_ext(c.op) == "all" and c.args):
+        return False
+    inner = c.args[0]
+    if not (isinstance(inner, T.Term) and inner.op == "ne" and any(isinstance(a_, (int, float)) and a_ == 0 for a_ in inner.args)):
+        return False
+    d = next((a_ for a_ in inner.args if isinstance(a_, T.Term)), None)
+    return isinstance(d, T.Term) and _strip_ext(d.op) in ("diagonal", "diag") and bool(d.args) and struct(d.args[0]) == "upper"
+
+
+def is_shape_test(c):
+    """R.shape[0] != R.shape[1] (a trace-time static test that separates wide inputs)."""
+    if not (isinstance(c, T.Term) and c.op in ("ne", "eq") and len(c.args) == 2):
+        return False
+
+    def dim(t, i):
+        return isinstance(t, T.Term) and t.op == "getitem" and t.args[1] == i and isinstance(t.args[0], T.Term) and t.args[0].op == "attr" and t.args[0].args[1] == "shape"
+
+    return (dim(c.args[0], 0) and dim(c.args[1], 1) and c.args[0].args[0].args[0] is c.args[1].args[0].args[0]) or (dim(c.args[0], 1) and dim(c.args[1], 0) and c.args[0].args[0].args[0] is c.args[1].args[0].args[0])
+
+
+def select(t, cond, branch):
+    """Replace every where(cond, a, b) inside t by a (branch True) or b (branch False)."""
+    from ..harness import subst
+
+    mapping = {}
+    for x in T.subterms(t):
+        if isinstance(x, T.Term) and _strip_ext(x.op) == "where" and len(x.args) == 3 and x.args[0] is cond:
+            mapping[x.uid] = x.args[1] if branch else x.args[2]
+    if not mapping:
+        return t
+    out = subst(t, mapping)
+    return select(out, cond, branch) if out is not t else out
+
+
+def rule_cases(tangent):
+    """[(label, kind, tangent_under_the_case, guard)], kind in {'regular', 'singular', 'wide', 'all'}."""
+    cases = []
+
+    def split_where(label, tan):
+        if isinstance(tan, T.Term) and _strip_ext(tan.op) == "where" and len(tan.args) == 3 and is_regularity_test(tan.args[0]):
+            c = tan.args[0]
+            cases.append((f"{label}regular R", "regular", select(tan.args[1], c, True), c))
+            cases.append((f"{label}singular R", "singular", select(tan.args[2], c, False), c))
+        else:
+            cases.append((f"{label}every input" if label else "every input", "all", tan, None))
+
+    if isinstance(tangent, T.Term) and tangent.op == "ite" and is_shape_test(tangent.args[0]):
+        c = tangent.args[0]
+        wide, square = (tangent.args[1], tangent.args[2]) if c.op == "ne" else (tangent.args[2], tangent.args[1])
+        cases.append(("non-square R (wide input)", "wide", wide, c))
+        split_where("square R, ", square)
+    else:
+        split_where("", tangent)
+    return cases
 
 
 # ---------------------------------------------------------------------------
@@ -172,6 +286,8 @@ def _reduce(word):
                 rep = [("M", True)]
             elif a == ("Q", True) and b == ("Q", False):
                 rep = []
+            elif {a[0], b[0]} == {"R", "Rinv"} and a[1] == b[1]:
+                rep = []  # R R^-1 = R^-1 R = I, and the transposed versions
             if rep is not None:
                 w[i : i + 2] = rep
                 changed = True
@@ -214,6 +330,17 @@ def words(t):
         return {((s, False),): 1}
     if t.op == "attr" and t.args[1] == "T":
         return _ptrans(words(t.args[0]))
+    if t.op.endswith("solve_triangular") and len(t.args) == 2 and t.kwargs.get("trans", 0) in (0, "N"):
+        # solve_triangular(A, B) = A^-1 B for A in {R, R^T}
+        wa = words(t.args[0])
+        if len(wa) == 1:
+            (w, c), = wa.items()
+            if c == 1 and len(w) == 1 and w[0][0] == "R":
+                return _pmul({(("Rinv", w[0][1]),): 1}, words(t.args[1]))
+        raise _NotPoly("solve with a matrix other than R")
+    if t.op.endswith(".tril") or t.op.endswith(".triu"):
+        # the triangular part of a matrix is an opaque symbol (it cancels in the Gram identity through its skew-symmetric combination)
+        return {((f"tri#{t.uid}", False),): 1}
     if t.op == "matmul":
         return _pmul(words(t.args[0]), words(t.args[1]))
     if t.op == "add":
@@ -253,11 +380,26 @@ def gram_consistent(primal_out, tangent):
 
 
 def check_gram(p, m, fn, rule):
+    cases = check_gram_cases(p, m, fn, rule)
+    bad = [c for c in cases if c[1] is False]
+    unk = [c for c in cases if c[1] is None]
+    if bad:
+        return False, bad[0][2]
+    if unk:
+        return None, unk[0][2]
+    return True, "; ".join(c[2] for c in cases)
+
+
+def check_gram_cases(p, m, fn, rule):
     M, Md = T.atom("M"), T.atom("M_dot")
     res = eval_fn(p, m, rule, [(M,), (Md,)])
     if not (isinstance(res, (tuple, list)) and len(res) == 2):
-        return None, f"rule returns {T.show(res, 2)}"
-    return gram_consistent(res[0], res[1])
+        return [("every input", None, f"rule returns {T.show(res, 2)}", "all")]
+    out = []
+    for label, kind, tan, _guard in rule_cases(res[1]):
+        ok, det = gram_consistent(res[0], tan)
+        out.append((label, ok, det, kind))
+    return out
 
 
 POSITIVE_CONTROL_SRC = '''
@@ -314,20 +456,32 @@ def run(chk, S: Session):
             r1.unknown(f"{m.name}.{fn.name}", "custom-derivative function without a registered rule in the same module", m.relpath)
             continue
         for rule in rls:
+            base = f"{m.name}.{fn.name}"
+            where = f"{m.relpath}:{rule.lineno}"
             try:
-                ok, detail = check_rule(p, m, fn, rule)
+                cases = check_rule_cases(p, m, fn, rule)
             except AnalysisError as e:
-                r1.unknown(f"{m.name}.{fn.name}", f"rule {rule.name} could not be analysed: {e}", f"{m.relpath}:{rule.lineno}")
+                r1.unknown(base, f"rule {rule.name} could not be analysed: {e}", where)
                 continue
-            r1.require(ok, f"{m.name}.{fn.name}", detail, f"custom rule {rule.name}: {detail} -- the tangent leaves the tangent space of the primal output, so derivatives through this function are not the true derivatives",
-                       f"{m.relpath}:{rule.lineno}")
-            chk.sample({"rule": "R-C16-1", "function": f"{m.name}.{fn.name}", "analysis": detail})
+            wide_reached = None
+            for label, ok, detail, kind in cases:
+                construct = base if (len(cases) == 1 and kind == "all") else f"{base} [{label}]"
+                if kind == "wide":
+                    # the simple rule is kept for non-square R: is such an input ever produced by the package?
+                    wide_reached = wide_inputs_reached(S)
+                    if wide_reached[0] is False:
+                        r1.ok(construct, f"never exercised: {wide_reached[1]}", where)
+                        continue
+                r1.require(ok, construct, detail, f"custom rule {rule.name}: {detail} -- the tangent leaves the tangent space of the primal output, so derivatives through this function are not the true derivatives", where)
+                chk.sample({"rule": "R-C16-1", "function": construct, "analysis": detail})
             if fn.name.startswith("qr"):
                 try:
-                    okg, dg = check_gram(p, m, fn, rule)
+                    gcases = check_gram_cases(p, m, fn, rule)
                 except AnalysisError as e:
-                    okg, dg = None, str(e)
-                r4.require(okg, f"{m.name}.{fn.name} Gram consistency", dg, f"custom rule {rule.name}: {dg} -- derivatives of covariances R^T R computed through this rule are not the true derivatives", f"{m.relpath}:{rule.lineno}")
+                    gcases = [("every input", None, str(e), "all")]
+                for label, okg, dg, kind in gcases:
+                    construct = f"{base} Gram consistency" if (len(gcases) == 1 and kind == "all") else f"{base} Gram consistency [{label}]"
+                    r4.require(okg, construct, dg, f"custom rule {rule.name}: {dg} -- derivatives of covariances R^T R computed through this rule are not the true derivatives", where)
     # ---------------- stop-gradient discipline (syntactic)
     sites = []
     for m in p.modules.values():
@@ -431,6 +585,12 @@ def _reductions(it, term, root_atom):
     return found
 
 
+def _untranspose(t):
+    while isinstance(t, T.Term) and t.op == "attr" and t.args[1] == "T":
+        t = t.args[0]
+    return t
+
+
 def zero_state_rules(chk, S, rules):
     """An exact initial state (the default) has a zero Cholesky factor: what is reported there must have a derivative at zero."""
     from ..harness import BLOCK, DENSE, ISO
@@ -442,12 +602,26 @@ def zero_state_rules(chk, S, rules):
     for m, fn, rls in qr_rules:
         bad = []
         for rl in rls:
-            for node in ast.walk(rl):
-                if isinstance(node, ast.BinOp) and isinstance(node.op, (ast.Div, ast.FloorDiv)):
-                    bad.append(f"division at line {node.lineno}")
-                if isinstance(node, ast.Call) and any(k in ast.unparse(node.func) for k in ("solve", "inv", "lstsq", "reciprocal", "divide")):
-                    bad.append(f"{ast.unparse(node.func)} at line {node.lineno}")
-        r3.require(not bad, "qr_r custom rule is finite at zero", "no division, solve or inverse in the rule", f"the custom rule of qr_r contains {bad}", f"{m.relpath}:{fn.lineno}")
+            try:
+                res = eval_fn(S.p, m, rl, [(T.atom("M"),), (T.atom("M_dot"),)])
+            except AnalysisError as e:
+                bad.append(f"rule could not be interpreted: {e}")
+                continue
+            tan = res[1] if isinstance(res, (tuple, list)) and len(res) == 2 else None
+            guards = [g for _l, kind, _t, g in rule_cases(tan) if kind in ("regular", "singular") and g is not None] if tan is not None else []
+            for t_ in (T.subterms(tan) if tan is not None else []):
+                if not isinstance(t_, T.Term):
+                    continue
+                opn = _strip_ext(t_.op)
+                if t_.op == "div" and isinstance(t_.args[1], T.Term):
+                    bad.append(f"division by {T.show(t_.args[1], 2)}")
+                if opn in ("solve_triangular", "solve", "inv", "lstsq", "pinv", "reciprocal", "divide"):
+                    mat = t_.args[0] if t_.args else None
+                    # JAX evaluates both branches of a where: the solve is harmless at a singular R only if its matrix is replaced there (R_safe = where(regular, R, I))
+                    safe_here = bool(guards) and all(struct(select(mat, g, False)) in ("diag", "zero") or struct(_untranspose(select(mat, g, False))) == "diag" for g in guards)
+                    if not safe_here:
+                        bad.append(f"{opn} with {T.show(mat, 2)}, which is singular at a zero input")
+        r3.require(not bad, "qr_r custom rule is finite at zero", "no division; every solve uses the identity where R is singular", f"the custom rule of qr_r contains {bad[:2]}", f"{m.relpath}:{fn.lineno}")
         if not bad:
             safe.add("linalg.qr_r")
     if not qr_rules:
